@@ -24,6 +24,12 @@ def ir_name(n):
 
 @st.composite
 def designs(draw, max_mods=4, max_prims=3, max_insts=4, max_w=4):
+    def width():
+        # now and then past 9: two-digit indices
+        if draw(st.integers(0, 15)) == 0:
+            return draw(st.integers(10, 17))
+        return draw(st.integers(1, max_w))
+
     nprims = draw(st.integers(1, max_prims))
     prims = []
     used = set()
@@ -32,7 +38,7 @@ def designs(draw, max_mods=4, max_prims=3, max_insts=4, max_w=4):
         used.add(name)
         nports = draw(st.integers(1, 4))
         pn = draw(st.lists(st.sampled_from(PORT_NAMES), min_size=nports, max_size=nports, unique=True))
-        ports = [{"name": p, "dir": draw(st.sampled_from(DIRS)), "w": draw(st.integers(1, max_w))}
+        ports = [{"name": p, "dir": draw(st.sampled_from(DIRS)), "w": width()}
                  for p in pn]
         declared = draw(st.booleans())
         positional = (not declared) and draw(st.integers(0, 3)) == 0
@@ -50,7 +56,7 @@ def designs(draw, max_mods=4, max_prims=3, max_insts=4, max_w=4):
         nports = draw(st.integers(0, 4))
         names = draw(st.lists(st.sampled_from(NET_NAMES), min_size=nports + 1, max_size=nports + 4,
                               unique=True))
-        ports = [{"name": names[k], "dir": draw(st.sampled_from(DIRS)), "w": draw(st.integers(1, max_w))}
+        ports = [{"name": names[k], "dir": draw(st.sampled_from(DIRS)), "w": width()}
                  for k in range(nports)]
         alias_names = []
         if ports and draw(st.integers(0, 4)) == 0:
@@ -66,7 +72,7 @@ def designs(draw, max_mods=4, max_prims=3, max_insts=4, max_w=4):
             if kind == 0:
                 implicit.append(nm)
             else:
-                w = draw(st.integers(1, max_w))
+                w = width()
                 lsb = draw(st.sampled_from([0, 0, 1, 4])) if w > 1 or draw(st.booleans()) else 0
                 ranged = w > 1 or draw(st.integers(0, 3)) == 0
                 wires.append({"name": nm, "msb": lsb + w - 1, "lsb": lsb, "ranged": ranged})
